@@ -9,7 +9,7 @@ from sa.astx import call_name, dotted, src, walk_local
 from sa.effects import accesses, class_accesses
 from sa.selftest import Mutant, Silent
 from sa.source import methods
-from sa.props._lib_b import (MiniBudget, MiniEval, MiniRaise, Unsupported, check_delayed_call, lin_cmp, lin_cmp_text, lin_eq, linform,
+from sa.props._lib_b import (MiniBudget, MiniEval, MiniRaise, Unsupported, check_delayed_call, public_api_effects, lin_cmp, lin_cmp_text, lin_eq, linform,
                               model_class, swallowing_predicate)
 
 PROPERTY = "C08"
@@ -592,6 +592,69 @@ def _check_get_delayed_calls(ctx, mod, cls, Elem):
     ctx.check(bad is None, "getDelayedCalls/exactly-pending", q, f"getDelayedCalls() does not return exactly the uncancelled calls of heap and staging list: {bad}")
 
 
+# =============================================================================== who may mutate through the public API
+INTERNAL_DRIVERS = {"runUntilCurrent", "timeout"}   # reactor-internal: called by the reactor's own iteration, before/after the run loop
+
+
+def _check_public_api(ctx, mod, cls, canc, rst):
+    """User code runs *inside* runUntilCurrent's loop (the timed call itself).  Whatever it can invoke there - every public
+    method of the reactor, and the canceller / resetter reached through DelayedCall.cancel/reset/delay - must leave the split
+    between the staging list and the heap alone: it may stage a call (append), sift a call up (the resetter) and count a
+    cancellation, nothing else.  In particular it must not move staged calls into the heap: a call scheduled during the
+    iteration would then run in the same iteration."""
+    ms = methods(cls)
+    roots = sorted(n for n in ms if not n.startswith("_") and n not in INTERNAL_DRIVERS)
+    for extra in (canc, rst):
+        if extra and extra in ms and extra not in roots:
+            roots.append(extra)
+    effects = public_api_effects(mod, cls, {HEAP, NEW}, roots, INTERNAL_DRIVERS)
+    seen = set()
+    n = 0
+    for root, chain, a in effects:
+        fn = a.func.split(".")[1]
+        key = (root, a.func, src(a.node))
+        if key in seen:
+            continue
+        seen.add(key)
+        n += 1
+        allowed = (a.attr == NEW and a.kind == "append") or (a.attr == HEAP and a.kind == "setitem" and fn == rst) \
+            or (a.attr == HEAP and a.kind in ("heapify", "sort") and fn == rst)
+        via = " -> ".join(chain)
+        c = ctx.construct(f"{R}.{root}", f"{via}: {src(a.node)[:90]}")
+        if a.attr == HEAP:
+            msg = (f"{root}() can be called by user code from inside a running timed call and reaches `{src(a.node)[:70]}` ({via}): the timer "
+                   "heap changes under runUntilCurrent's loop - a call scheduled during this iteration is moved into the heap and runs in the "
+                   "same iteration (or a pending call is taken out of it)")
+        else:
+            msg = (f"{root}() can be called by user code from inside a running timed call and reaches `{src(a.node)[:70]}` ({via}): calls "
+                   "scheduled during this iteration leave the staging list early or are lost")
+        ctx.check(allowed, "api/no-heap-motion-from-user-callable", c, msg)
+    ctx.floor("api/no-heap-motion-from-user-callable", n, 2, "reachable mutations")
+    # the drivers themselves are not reachable from the other public methods except as whole iterations
+    for d in sorted(INTERNAL_DRIVERS):
+        ctx.need(d in ms, f"ReactorBase.{d}")
+    # no other module of the package reaches into the staging machinery
+    offenders = []
+    scanned = 0
+    for rel in ctx.tree.all_modules():
+        if rel == BASE:
+            continue
+        text = ctx.tree.text(rel)
+        if "_insertNewDelayedCalls" not in text and NEW not in text and HEAP not in text:
+            continue
+        scanned += 1
+        m = ctx.mod(rel)
+        for node in ast.walk(m.tree):
+            if isinstance(node, ast.Attribute) and node.attr in ("_insertNewDelayedCalls", NEW, HEAP):
+                offenders.append((rel, node))
+    for rel, node in offenders:
+        ctx.violation("api/no-heap-motion-from-user-callable", f"twisted/{rel} | {src(node)}",
+                      "code outside ReactorBase touches the timer heap / staging list directly: the staging discipline of base.py no longer "
+                      "decides when a newly scheduled call becomes runnable")
+    if not offenders:
+        ctx.ok("api/no-heap-motion-from-user-callable", "twisted/* | <no use of the staging machinery outside internet/base.py>", f"{scanned} candidate modules parsed")
+
+
 def check(ctx):
     mod = ctx.mod(BASE)
     cls = ctx.cls(BASE, "ReactorBase")
@@ -625,6 +688,8 @@ def check(ctx):
         for a in incs:
             ctx.check(canc is not None and a.func == f"ReactorBase.{canc}", "cancellations/counted", ctx.construct(f"{MODNAME}.{a.func}", a.node),
                       "_cancellations is incremented outside the canceller")
+    with ctx.section("public API"):
+        _check_public_api(ctx, mod, cls, canc, rst)
     with ctx.section("_insertNewDelayedCalls"):
         _check_insert(ctx, mod, cls)
     with ctx.section("runUntilCurrent"):
@@ -726,4 +791,25 @@ SILENT += [
     Silent("requeue-helper-extracted", BASE, _DELAYED_BRANCH, "            if call.delayed_time > 0.0:\n                self._requeue(call)\n                continue\n\n",
            more=[(BASE, "    def _cancelCallLater(self, delayedCall: DelayedCall) -> None:",
                   "    def _requeue(self, call):\n        call.activate_delay()\n        heappush(self._pendingTimedCalls, call)\n\n    def _cancelCallLater(self, delayedCall: DelayedCall) -> None:")]),
+]
+
+_GDC = ("        return [\n            x\n            for x in (self._pendingTimedCalls + self._newTimedCalls)\n            if not x.cancelled\n        ]\n")
+MUTANTS += [
+    # getDelayedCalls() is callable from inside a running timed call: flushing the staging list there lets a call scheduled during
+    # this iteration run in the same iteration
+    Mutant("accessor-flushes-staging-list", BASE, _GDC, "        self._insertNewDelayedCalls()\n        return [c for c in self._pendingTimedCalls if not c.cancelled]\n",
+           expect_rule="api/no-heap-motion-from-user-callable"),
+    # same through a helper and from callLater ("insert eagerly when idle")
+    Mutant("call-later-flushes-through-helper", BASE, "        self._newTimedCalls.append(delayedCall)\n        return delayedCall\n",
+           "        self._newTimedCalls.append(delayedCall)\n        self._flushNew()\n        return delayedCall\n\n    def _flushNew(self):\n        self._insertNewDelayedCalls()\n",
+           expect_rule="api/no-heap-motion-from-user-callable"),
+    # the resetter (reached from DelayedCall.reset/delay inside a running call) re-heapifies by draining the staging list first
+    Mutant("resetter-flushes-staging-list", BASE, "        heap = self._pendingTimedCalls\n        try:\n", "        self._insertNewDelayedCalls()\n        heap = self._pendingTimedCalls\n        try:\n",
+           expect_rule="api/no-heap-motion-from-user-callable"),
+]
+SILENT += [
+    Silent("accessor-through-helper", BASE, _GDC, "        return self._liveCalls()\n\n    def _liveCalls(self):\n        return [c for c in self._pendingTimedCalls + self._newTimedCalls if not c.cancelled]\n"),
+    Silent("iterate-calls-drivers", BASE, "        self._insertNewDelayedCalls()\n\n        if not self._pendingTimedCalls:\n            return None\n",
+           "        self._stage()\n\n        if not self._pendingTimedCalls:\n            return None\n",
+           more=[(BASE, "    def _cancelCallLater(self, delayedCall: DelayedCall) -> None:", "    def _stage(self):\n        self._insertNewDelayedCalls()\n\n    def _cancelCallLater(self, delayedCall: DelayedCall) -> None:")]),
 ]
